@@ -58,6 +58,9 @@ impl SakuraCompiler {
     }
     /// compile to MIDI data
     pub fn compile(&mut self, source: &str) -> Vec<u8> {
+        // every compilation starts from a fresh song: nothing of an earlier source may leak in
+        self.song = song::Song::new();
+        self.log_str = String::new();
         if self.debug_level > 0 {
             self.song.debug = true;
         }
